@@ -334,3 +334,81 @@ func checkC09Shadowed(c *Ctx, n int) {
 		})
 	}
 }
+
+// checkC09OuterWord: below a command, the names and aliases of the commands of the OUTER levels (its
+// siblings, its ancestors, itself) mean nothing.  Where a subcommand is required such a word is an
+// unknown command and nothing runs; where subcommands are optional (or there are none) it is an ordinary
+// argument and the innermost selected command runs once, with it among the arguments.
+func checkC09OuterWord(c *Ctx, n int) {
+	r := c.Rng
+	for i := 0; i < n; i++ {
+		cs := &Case{Name: "app", NsDelim: ".", EnvNsDelim: "_", CmdHandler: r.Intn(2) == 0}
+		remoteOpt := r.Intn(2) == 0
+		cs.Build = []BuildOp{
+			{Kind: "addgroup", Target: 1, Short: "Application Options", Struct: &StructDesc{Fields: []FieldDesc{{Name: "V", Exported: true, Kind: "v", Ty: "bool", Tag: `short:"v"`}}}},
+			{Kind: "addcommand", Target: 1, Name: "add", Short: "add", Struct: &StructDesc{}, Commander: 1},       // 2
+			{Kind: "addcommand", Target: 1, Name: "remote", Short: "remote", Struct: &StructDesc{}, Commander: 1}, // 3
+			{Kind: "setcmd", Target: 3, Attr: "aliases", Vals: []string{"1", hx("rem")}},
+			{Kind: "addcommand", Target: 3, Name: "show", Short: "show", Struct: &StructDesc{}, Commander: 1},     // 4
+			{Kind: "addcommand", Target: 3, Name: "rename", Short: "rename", Struct: &StructDesc{}, Commander: 1}, // 5
+		}
+		if remoteOpt {
+			cs.Build = append(cs.Build, BuildOp{Kind: "setcmd", Target: 3, Attr: "subopt", Vals: []string{"1"}})
+		}
+		outer := []string{"add", "remote", "rem"}[r.Intn(3)]
+		var argv []string
+		wantExec, wantArgs, wantErr := 0, []string{}, 0
+		switch r.Intn(3) {
+		case 0: // behind remote: a subcommand is expected there
+			argv = []string{"remote", outer, "x"}
+			if remoteOpt {
+				wantExec, wantArgs = 3, []string{outer, "x"}
+			} else {
+				wantErr = int(flags.ErrUnknownCommand)
+			}
+		case 1: // behind remote show (no subcommands below): a plain argument
+			argv = []string{"remote", "show", outer}
+			wantExec, wantArgs = 4, []string{outer}
+		default: // by alias, then the outer word
+			argv = []string{"rem", "-v", outer}
+			if remoteOpt {
+				wantExec, wantArgs = 3, []string{outer}
+			} else {
+				wantErr = int(flags.ErrUnknownCommand)
+			}
+		}
+		cs.Ops = []Op{{Kind: "parse", Args: argv}}
+		cs.Description = describeOps(cs)
+		c.RunCases([]*Case{cs}, func(cr *CaseResult) {
+			c.classifyCase(cr)
+			var obs parseObs
+			for _, o := range parseBlocks(cr) {
+				obs = o
+			}
+			c.Class(fmt.Sprintf("c09/outer-word: word=%s remote-subcommands-optional=%v expected-error=%d", outer, remoteOpt, wantErr))
+			var runs []string
+			for _, l := range obs.logs {
+				if strings.HasPrefix(l, "LOG exec ") {
+					ws := strings.Fields(l)
+					runs = append(runs, ws[2]+" "+decodeLine(strings.Join(ws[3:], " ")))
+				}
+			}
+			in := map[string]interface{}{"case": cs.Description, "argv": argv, "remote_subcommands_optional": remoteOpt}
+			got := fmt.Sprintf("%s %s type %d %q, runs: %q", obs.panic, obs.errKind, obs.errType, obs.errMsg, runs)
+			var ok bool
+			var want string
+			if wantErr != 0 {
+				want = fmt.Sprintf("*flags.Error type %d (unknown command `%s'), nothing runs", wantErr, outer)
+				ok = obs.panic == "" && obs.errKind == "flags" && obs.errType == wantErr && len(runs) == 0
+			} else {
+				wr := fmt.Sprintf("%d %s", wantExec, decodeLine(hxList(wantArgs)))
+				want = fmt.Sprintf("success, exactly one run: %q", []string{wr})
+				ok = obs.panic == "" && obs.errKind == "ok" && len(runs) == 1 && runs[0] == wr
+			}
+			if !ok {
+				in["case_file"] = c.saveCase(cr)
+			}
+			c.Check("outer-command-names-mean-nothing-below-a-command", ok, "C09:outer-word", in, got, want)
+		})
+	}
+}
